@@ -321,7 +321,9 @@ def _xfilter(accumulator, test_range, condition, operating_range):
                     map(_, _re_condition.split(condition)),
                     tuple(map(lambda v: '.' if v == '?' else '.*', it)) + ('',)
                 ), ())), re.IGNORECASE | re.DOTALL).fullmatch
-                f = lambda v: isinstance(v, str) and bool(match(v))
+                f = lambda v: isinstance(v, str) and v is not sh.EMPTY and bool(
+                    match(v)
+                )  # A blank is no text (the token reads `empty`).
                 b = np.vectorize(f, otypes=[bool])(test_range['raw'])
                 try:
                     return accumulator(operating_range[b])
